@@ -11,16 +11,17 @@ rsync -a --exclude target --exclude replays --exclude evidence /verif/ $W/verif/
 mkdir -p $W/verif/evidence
 sed -i "s|path = \"/repo\"|path = \"$W/repo\"|" $W/verif/sim/Cargo.toml
 HEAD=$(git -C /repo log --format=%h -1)
-{ echo "# Seeded changes re-evaluated against the current checks"; echo; echo "repo commit $HEAD, verif commit $(git -C /verif log --format=%h -1), quick tier, VERIF_SEED default"; echo; echo "| seeded change | property | exit | signatures (runs) |"; echo "|---|---|---|---|"; } > "$OUT.tmp"
+{ echo "# Seeded changes re-evaluated against the current checks"; echo; echo "repo commit $HEAD, verif commit $(git -C /verif log --format=%h -1), tier as recorded in each meta.json (quick unless stated), VERIF_SEED default; C09-r4m3 and C01-r6m1 are recorded as not detected (see their meta.json)"; echo; echo "| seeded change | property | exit | signatures (runs) |"; echo "|---|---|---|---|"; } > "$OUT.tmp"
 MISSED=0
 for d in /verif/seeded/*/; do
   id=$(basename $d); [ -f $d/meta.json ] || continue
   prop=$(python3 -c "import json;print(json.load(open('$d/meta.json'))['detected_by']['check'].split()[1])")
   ( cd $W/repo && git checkout -q -- . && git apply $d/patch.diff ) || { echo "| $id | $prop | patch does not apply | |" >> "$OUT.tmp"; continue; }
-  out=$(cd $W/verif && VERIF_REPLAY_DIR=$W/replays ./check $prop quick 2>&1); rc=$?
+  tier=$(python3 -c "import json;print(json.load(open('$d/meta.json'))['detected_by']['check'].split()[2])")
+  out=$(cd $W/verif && VERIF_REPLAY_DIR=$W/replays ./check $prop $tier 2>&1); rc=$?
   sigs=$(echo "$out" | grep -A1 "signature:" | sed -n 's/.*signature: \(.*\)/\1/p;s/.*runs with this signature: \(.*\)/(\1)/p' | paste -sd' ' | cut -c1-300)
   [ $rc -eq 1 ] || MISSED=$((MISSED+1))
-  echo "| $id | $prop | $rc | $sigs |" >> "$OUT.tmp"
+  echo "| $id | $prop ($tier) | $rc | $sigs |" >> "$OUT.tmp"
   echo "$id $prop exit=$rc"
 done
 ( cd $W/repo && git checkout -q -- . )
